@@ -4,6 +4,7 @@ import (
 	"encoding/json"
 	"io"
 	"os"
+	"strings"
 	"time"
 
 	dawn "github.com/pgavlin/dawn"
@@ -40,6 +41,9 @@ func childBuilder(c *core.Ctx, cpus int) func(req pj.BuildReq, env []string) (pj
 			}
 			if r.TimedOut {
 				res.Panic += " watchdog"
+			}
+			if strings.Contains(r.Stderr, "starlark.(*cell).Freeze") && strings.Contains(r.Stderr, "starlark.ExecFile") {
+				res.Panic += " in-interpreter-freeze-during-module-load"
 			}
 			res.RunErr = "child died: " + res.Panic + "\n" + lastLines(r.Stderr, 25)
 			return res, false
